@@ -123,6 +123,14 @@ func c16DataURIGen(c *engine.Ctx, in []byte, args map[string]string) {
 	case "base64-spaced":
 		uri = append(uri, " ; base64 ,"...)
 		uri = append(uri, base64.StdEncoding.EncodeToString(in)...)
+	case "percent-table":
+		// the library's own table for data URIs (it leaves '+', ',', ';', '=' and other printable characters as they are)
+		uri = append(uri, ',')
+		uri = append(uri, parse.EncodeURL(append([]byte{}, in...), parse.DataURIEncodingTable)...)
+	case "percent-min":
+		// only what cannot stand for itself: '%', '#', blank, control and non-ASCII bytes
+		uri = append(uri, ',')
+		uri = append(uri, pctEncode(in, func(b byte) bool { return b == '%' || b == '#' || b <= ' ' || b >= 0x7f })...)
 	default:
 		uri = append(uri, ',')
 		uri = append(uri, pctEncode(in, func(b byte) bool {
@@ -189,13 +197,28 @@ func c16Mediatype(c *engine.Ctx, in []byte, args map[string]string) {
 	}
 	// well-formed according to mime: every parameter has the form key=value
 	c.Count("mime-accepted", 1)
-	if string(gotT) != wantT || len(gotP) != len(wantP) {
+	// first modulo the ASCII case of the type and of the parameter names (mime lower-cases both), then exactly
+	lowP := map[string]string{}
+	for k, v := range gotP {
+		lowP[strings.ToLower(k)] = v
+	}
+	if strings.ToLower(string(gotT)) != wantT || len(lowP) != len(wantP) {
 		c.Fail("Mediatype", fmt.Sprintf("Mediatype(%q) = (%q, %v), mime.ParseMediaType gives (%q, %v)", in, gotT, gotP, wantT, wantP))
 		return
 	}
 	for k, v := range wantP {
-		if gotP[k] != v {
+		if lowP[k] != v {
 			c.Fail("Mediatype", fmt.Sprintf("Mediatype(%q) = (%q, %v), mime.ParseMediaType gives (%q, %v)", in, gotT, gotP, wantT, wantP))
+			return
+		}
+	}
+	if string(gotT) != wantT || len(gotP) != len(wantP) {
+		c.Fail("Mediatype-case", fmt.Sprintf("Mediatype(%q) = (%q, %v), mime.ParseMediaType gives (%q, %v)", in, gotT, gotP, wantT, wantP))
+		return
+	}
+	for k, v := range wantP {
+		if gotP[k] != v {
+			c.Fail("Mediatype-case", fmt.Sprintf("Mediatype(%q) = (%q, %v), mime.ParseMediaType gives (%q, %v)", in, gotT, gotP, wantT, wantP))
 			return
 		}
 	}
@@ -407,12 +430,13 @@ func c16Work(c *engine.Ctx) {
 	enum("url", engine.Atoms("a", " ", "%", "+", "/", "?", "&", "=", "\x00", "\xff", "é", "~"), c.Pick(3, 4), nil)
 	enum("url", engine.Atoms("%", "+", "0", "9", "a", "f", "A", "F", "g", "z"), c.Pick(7, 8), nil)
 	for _, mt := range c16MediaTypes {
-		for _, enc := range []string{"base64", "base64-spaced", "percent"} {
+		for _, enc := range []string{"base64", "base64-spaced", "percent", "percent-table", "percent-min"} {
 			enum("datauri-gen", engine.Atoms("\x00", "a", "%", "+", ",", ";", "=", " ", "\xff", "b"), c.Pick(4, 5), map[string]string{"mt": mt, "enc": enc})
 		}
 	}
 	enum("datauri-any", engine.Atoms("data:", "base64", "d", "a", "t", ":", ";", ",", "=", "b", "6", "4", "%", " ", "/"), c.Pick(6, 7), nil)
 	enum("mediatype", engine.Atoms("text/html", "a/b", ";", "=", " ", "c", "d", ",", "\t"), c.Pick(8, 9), nil)
+	enum("mediatype", engine.Atoms("Text/HTML", "a/B", ";", "=", " ", "C", "d", "utf-8", "UTF-8"), c.Pick(6, 7), nil)
 	// structured media types: every spacing of up to three distinct parameters
 	{
 		msp := c.SpaceByName("mediatype")
@@ -501,8 +525,8 @@ func c16Finish(c *engine.Ctx, cov map[string]interface{}) string {
 func init() {
 	register(&engine.Check{
 		ID: "C16", Level: "exploration",
-		Rule:        "all strings ≤7 over {+ - . 0 9 e E a % x} for Number/Dimension vs the documented regexp (longest match); all 256 bytes and all strings over two alphabets for EncodeURL (both tables, three capacities) and DecodeURL (inverse on every encoded string; equals url.QueryUnescape wherever that succeeds); DataURI on every payload ≤3 bytes over 10 byte values × {base64, spaced base64, percent} × 5 media types and on all strings ≤5 atoms over data-URI fragments; Mediatype on all strings ≤7 atoms vs mime.ParseMediaType where that succeeds; EqualFold/ToLower/TrimWhitespace/IsAllWhitespace/IsWhitespace/IsNewline on all bytes and all strings ≤4 over 15 atoms; css/html ToHash on every constant (read from the current source), its case variants, every single-edit neighbour and all strings ≤4 over the table's letters vs a plain map",
-		Assumptions: []string{"percent-encoding of data URI payloads encodes every byte outside the unreserved set", "media types starting with ';' (parameters only) are not generated"},
+		Rule:        "all strings ≤7 over {+ - . 0 9 e E a % x} for Number/Dimension vs the documented regexp (longest match); all 256 bytes and all strings over two alphabets for EncodeURL (both tables, three capacities) and DecodeURL (inverse on every encoded string; equals url.QueryUnescape wherever that succeeds); DataURI on every payload ≤3 bytes over 10 byte values × {base64, spaced base64, percent-encoding of everything outside the unreserved set, of what DataURIEncodingTable marks, of the bare minimum} × 5 media types and on all strings ≤5 atoms over data-URI fragments; Mediatype on all strings ≤7 atoms (lower-case and mixed-case alphabets) vs mime.ParseMediaType where that succeeds; EqualFold/ToLower/TrimWhitespace/IsAllWhitespace/IsWhitespace/IsNewline on all bytes and all strings ≤4 over 15 atoms; css/html ToHash on every constant (read from the current source), its case variants, every single-edit neighbour and all strings ≤4 over the table's letters vs a plain map",
+		Assumptions: []string{"media types starting with ';' (parameters only) are not generated"},
 		Setup:       c16Setup, Work: c16Work, Finish: c16Finish,
 	})
 }
